@@ -2,7 +2,9 @@
 //! control server (unix socket transport) and classifies the reply; state probes tell whether
 //! anything changed.
 //!   usage: c18 <kinds-file> <out-file>        kinds-file: one request type per line (index = line no.)
-//! Output line:  <id> : <kind-index> <cred> <token_set> <debug_on> <has_params> <admin_key> : <class> <need> <changed> <has_result>
+//! Output line:  <id> : <kind-index> <cred> <token_set> <debug_on> <has_params> <key-index> <key as hex or -> : <class> <need> <changed> <has_result> <admin_changed>
+//!   key-index (config.set only): index into CONFIG_KEYS - an ordinary key, the four admin-only keys and other spellings of them;
+//!   admin_changed: the auth token, the control mode, web.auth or mesh.auth_token differ after the request
 //!   cred: 0 none 1 wrong 2 admin-token 3 pair-viewer 4 pair-operator 5 pair-engineer 6 revoked 7 expired
 //!         8 empty string 9 prefix of the token 10 token+suffix 11 lower-cased token 12 first character of the token
 //!   class: 0 unauthorized 1 forbidden(need=rank) 2 debug-disabled 3 unsupported 4 dispatched 5 invalid-request 9 no-reply/crash
@@ -123,6 +125,18 @@ fn build_env(dir: &str, token_set: bool, debug_on: bool) -> Env {
     Env { state, sock, tokens: [viewer, operator, engineer, revoked, expired], commands }
 }
 
+/// config.set params: (key, value). Index 0 is an ordinary key; 1, 6, 7, 8 are the admin-only keys as documented; the rest are
+/// the same keys spelled with other letter case or with white space around them
+const CONFIG_KEYS: &[(&str, &str)] = &[
+    ("log.level", "debug"), ("control.auth_token", "changed-by-verif-harness"), ("Control.Auth_Token", "changed-by-verif-harness"),
+    (" control.mode", "production"), ("WEB.AUTH", "token"), ("mesh.auth_token ", "mesh-verif"), ("control.mode", "production"),
+    ("web.auth", "token"), ("mesh.auth_token", "mesh-verif"), ("CONTROL.AUTH_TOKEN\t", "changed-by-verif-harness"), ("Control.Mode", "production"),
+];
+fn admin_probe(env: &Env) -> String {
+    let s = &env.state;
+    let st = s.settings.lock().unwrap();
+    format!("{:?}|{:?}|{:?}|{:?}", s.auth_token.lock().unwrap(), s.control_mode.lock().unwrap(), st.web.auth, st.mesh.auth_token)
+}
 fn probe(env: &Env) -> String {
     let s = &env.state;
     // ask before taking any lock: the request handler locks the same mutexes
@@ -204,22 +218,23 @@ fn main() {
             let mut env = build_env(&dir, token_set, debug_on);
             for (ki, kind) in kinds.iter().enumerate() {
                 for cred in 0..13usize {
-                    let variants: Vec<(bool, bool)> = if kind == "config.set" { vec![(false, false), (true, false), (true, true)] } else { vec![(true, false), (false, false)] };
+                    let variants: Vec<(bool, usize)> = if kind == "config.set" { std::iter::once((false, 0)).chain((0..CONFIG_KEYS.len()).map(|k| (true, k))).collect() } else { vec![(true, 0), (false, 0)] };
                     for (hp, ak) in variants {
                         id += 1;
                         let mut req = serde_json::json!({"id": id, "type": kind});
                         if hp {
-                            req["params"] = if ak { serde_json::json!({"control.auth_token": "changed-by-verif-harness"}) }
-                                            else if kind == "config.set" { serde_json::json!({"log.level": "debug"}) }
+                            req["params"] = if kind == "config.set" { let mut m = serde_json::Map::new(); m.insert(CONFIG_KEYS[ak].0.to_string(), serde_json::json!(CONFIG_KEYS[ak].1)); serde_json::Value::Object(m) }
                                             else { serde_json::json!({}) };
                         }
                         if let Some(a) = cred_field(&env, cred) { req["auth"] = serde_json::json!(a); }
-                        let before = probe(&env);
+                        let before = probe(&env); let abefore = admin_probe(&env);
                         let reply = send(&env, &req.to_string());
                         let (class, need, has_result) = classify(reply.as_deref());
                         let after = probe(&env);
                         let changed = (before != after) as u8;
-                        writeln!(out, "r{id} : {ki} {cred} {} {} {} {} : {class} {need} {changed} {has_result}", token_set as u8, debug_on as u8, hp as u8, ak as u8).unwrap();
+                        let admin_changed = (abefore != admin_probe(&env)) as u8;
+                        let keyhex = if kind == "config.set" && hp { CONFIG_KEYS[ak].0.bytes().map(|b| format!("{b:02x}")).collect::<String>() } else { "-".to_string() };
+                        writeln!(out, "r{id} : {ki} {cred} {} {} {} {ak} {keyhex} : {class} {need} {changed} {has_result} {admin_changed}", token_set as u8, debug_on as u8, hp as u8).unwrap();
                         if class == 4 && changed == 1 {
                             // a handler ran and changed something: continue on a fresh endpoint
                             let _ = std::fs::remove_file(&env.sock);
